@@ -187,16 +187,28 @@ class Ctx:
         # z3's own timeout is only polled at some points of nlsat and can overrun by minutes: back it with an interrupt
         import threading
 
-        wd = threading.Timer(tmo / 1000.0 * 1.25 + 1.0, solver.ctx.interrupt)
-        wd.daemon = True
-        wd.start()
-        try:
+        for attempt in (0, 1):
+            wd = threading.Timer(tmo / 1000.0 * 1.25 + 1.0, solver.ctx.interrupt)
+            wd.daemon = True
+            wd.start()
+            t1 = time.time()
             try:
-                r = str(solver.check(*assumptions))
-            except z3.Z3Exception:
-                r = "unknown"
-        finally:
-            wd.cancel()
+                try:
+                    r = str(solver.check(*assumptions))
+                except z3.Z3Exception:
+                    r = "unknown"
+            finally:
+                wd.cancel()
+            # a watchdog of the PREVIOUS query that fired just as that query returned cancels this one at once
+            # (seen under load: `unknown` after milliseconds with reason "canceled"): such an answer is retried once
+            if r == "unknown" and attempt == 0 and time.time() - t1 < 0.25 * tmo / 1000.0:
+                try:
+                    why = solver.reason_unknown()
+                except Exception:
+                    why = ""
+                if "cancel" in why or "interrupt" in why:
+                    continue
+            break
         self.stats.add(r, time.time() - t0)
         return r
 
